@@ -16,6 +16,8 @@ pub(crate) struct QueuingExecutor {
     ready_queue: Receiver<TaskId>,
     ready_sender: Sender<TaskId>,
     tasks: Mutex<Slab<Option<BoxFuture>>>,
+    #[cfg(crux_verif)]
+    verif_id: usize,
 }
 // ANCHOR_END: executor
 
@@ -24,6 +26,8 @@ pub(crate) struct QueuingExecutor {
 #[derive(Clone)]
 pub struct Spawner {
     future_sender: Sender<BoxFuture>,
+    #[cfg(crux_verif)]
+    verif_id: usize,
 }
 // ANCHOR_END: spawner
 
@@ -41,6 +45,10 @@ impl std::ops::Deref for TaskId {
 pub(crate) fn executor_and_spawner() -> (QueuingExecutor, Spawner) {
     let (future_sender, spawn_queue) = crossbeam_channel::unbounded();
     let (ready_sender, ready_queue) = crossbeam_channel::unbounded();
+    #[cfg(crux_verif)]
+    let verif_id = crate::verif::next_executor_id();
+    #[cfg(crux_verif)]
+    crate::verif::ev("xnew", verif_id, 0, 0, 0);
 
     (
         QueuingExecutor {
@@ -48,8 +56,14 @@ pub(crate) fn executor_and_spawner() -> (QueuingExecutor, Spawner) {
             spawn_queue,
             ready_sender,
             tasks: Mutex::new(Slab::new()),
+            #[cfg(crux_verif)]
+            verif_id,
         },
-        Spawner { future_sender },
+        Spawner {
+            future_sender,
+            #[cfg(crux_verif)]
+            verif_id,
+        },
     )
 }
 
@@ -60,7 +74,9 @@ impl Spawner {
         let future = future.boxed();
         self.future_sender
             .send(future)
-            .expect("unable to spawn an async task, task sender channel is disconnected.")
+            .expect("unable to spawn an async task, task sender channel is disconnected.");
+        #[cfg(crux_verif)]
+        crate::verif::ev("xspawn", self.verif_id, 0, 0, 0);
     }
 }
 // ANCHOR_END: spawning
@@ -69,6 +85,8 @@ impl Spawner {
 struct TaskWaker {
     task_id: TaskId,
     sender: Sender<TaskId>,
+    #[cfg(crux_verif)]
+    verif_id: usize,
 }
 
 // used in docs/internals/runtime.md
@@ -82,6 +100,8 @@ impl Wake for TaskWaker {
         // This send can fail if the executor has been dropped.
         // In which case, nothing to do
         let _ = self.sender.send(self.task_id);
+        #[cfg(crux_verif)]
+        crate::verif::ev("xwake", self.verif_id, self.task_id.0 as usize, 0, 0);
     }
 }
 // ANCHOR_END: wake
@@ -95,6 +115,8 @@ impl QueuingExecutor {
         // we read from them in a loop until we are sure both queues
         // are exhausted
         let mut did_some_work = true;
+        #[cfg(crux_verif)]
+        crate::verif::ev("xrun", self.verif_id, 0, 0, 0);
 
         while did_some_work {
             did_some_work = false;
@@ -106,6 +128,8 @@ impl QueuingExecutor {
                     .lock()
                     .expect("Task slab poisoned")
                     .insert(Some(task));
+                #[cfg(crux_verif)]
+                crate::verif::ev("xtake", self.verif_id, task_id, 0, 0);
                 self.run_task(TaskId(task_id.try_into().expect("TaskId overflow")));
                 did_some_work = true;
             }
@@ -114,6 +138,8 @@ impl QueuingExecutor {
             while let Ok(task_id) = self.ready_queue.try_recv() {
                 #[cfg(crux_verif)]
                 crate::verif::point("ex_run");
+                #[cfg(crux_verif)]
+                crate::verif::ev("xpop", self.verif_id, task_id.0 as usize, 0, 0);
                 match self.run_task(task_id) {
                     RunTask::Unavailable => {
                         // We were unable to run the task as it is (presumably) being run on
@@ -135,9 +161,34 @@ impl QueuingExecutor {
                 }
             }
         }
+        #[cfg(crux_verif)]
+        crate::verif::ev(
+            "xdone",
+            self.verif_id,
+            self.spawn_queue.len(),
+            self.ready_queue.len(),
+            self.verif_live_tasks(),
+        );
     }
 
     fn run_task(&self, task_id: TaskId) -> RunTask {
+        #[cfg(crux_verif)]
+        {
+            let result = self.run_task_inner(task_id);
+            let code = match result {
+                RunTask::Missing => 0,
+                RunTask::Unavailable => 1,
+                RunTask::Suspended => 2,
+                RunTask::Completed => 3,
+            };
+            crate::verif::ev("xpolled", self.verif_id, task_id.0 as usize, code, 0);
+            result
+        }
+        #[cfg(not(crux_verif))]
+        self.run_task_inner(task_id)
+    }
+
+    fn run_task_inner(&self, task_id: TaskId) -> RunTask {
         let mut lock = self.tasks.lock().expect("Task slab poisoned");
         let Some(task) = lock.get_mut(*task_id as usize) else {
             return RunTask::Missing;
@@ -157,6 +208,8 @@ impl QueuingExecutor {
         let waker = Arc::new(TaskWaker {
             task_id,
             sender: self.ready_sender.clone(),
+            #[cfg(crux_verif)]
+            verif_id: self.verif_id,
         })
         .into();
         let context = &mut Context::from_waker(&waker);
